@@ -28,7 +28,14 @@ CFG = dict(
         "precommit coincides with the in-memory one), the primary's own commit path (the primary's records are taken "
         "as observed and assumed `primary_valid`)",
         "a ReplicateTx call that waits for its predecessor (future id) is run under a 250 ms context and modelled as an "
-        "error without effect; concurrent batches are compared by their final state only",
+        "error without effect; concurrent batches are compared by their final state only (and only while no discard "
+        "happened since the last Open: DiscardPrecommittedTxsSince does not recede the in-memory precommit watcher)",
+        "the AHT is modelled as a function of the chain. It is not when a replica that once held a record that is not "
+        "the primary's (an accepted alteration, or tx 1 with a stale BlRoot) is reopened after a discard: the tx log "
+        "reload may take the older record back while the AHT files keep the leaf appended last (ResetSize does not shrink "
+        "them) -- the replica then answers 'invalid blRoot' for ever. The harness ends a case at the first reopening after "
+        "such an acceptance (and at a reopening with embedded values and nothing committed, where the mis-parsed values "
+        "prefix leaves an unmodelled BlRoot in the tx holder); what it saw is in the report of the builder",
         "the _refuted witnesses (coq/Repl/Witness.v) use the executable SHA-256 over Coq's primitive 63-bit integers "
         "(kernel primitives PrimInt63.*, listed by Print Assumptions); they are compiled with Properties/C07.v but the "
         "seven theorems restated there are closed under the global context",
